@@ -146,6 +146,10 @@ def h5_digest(path, skip=('metadata',), json_datasets=('taxonomy_tree',), parts=
             b = v
         elif isinstance(v, str):
             b = v.encode()
+        elif getattr(v, 'dtype', None) is not None and v.dtype == object:
+            # variable-length strings: the raw buffer holds pointers, so digest the values
+            b = json.dumps([x.decode('utf-8', 'replace') if isinstance(x, bytes) else str(x)
+                            for x in np.asarray(v).ravel().tolist()]).encode()
         else:
             b = np.ascontiguousarray(v).tobytes()
         one = hashlib.sha256(b).hexdigest()[:10]
